@@ -30,6 +30,7 @@ func Run(m *mon.M) {
 	m.Require("predicate.intersects_false", 2000)
 	m.Require("predicate.lens_cells", 1000)
 	m.Stream("cover", m.N(40000, 1500000), coverCase)
+	runUserBound(m)
 }
 
 // region is a generated region with its exact point semantics.
